@@ -106,6 +106,12 @@ CHECKS["C20"] = dict(
    text="TLC explores every script of <= 2 (3 thorough) edits of 15 kinds (field added optional / required, optional<->required, type changed, field removed, fields reordered, struct deleted / added, method removed / added, service removed / added, file deleted / added) over two files (one in a subdirectory) and checks that the transcribed algorithm reports exactly the declarative set, modulo the recorded finding; two negative controls (the tool as it is against the property as stated; the pre-fix method path against the property modulo the finding). A deterministic sample of the model's states is rendered to Thrift with shuffled declaration order, committed as HEAD~ / HEAD in scratch git repositories, and thriftbreak is run three times readable and once with -json; TLC checks that the lines are exactly the expected diagnostics, each once, the same in JSON mode, the same across runs and orders, and that the exit status is non-zero iff there are diagnostics.",
    note="Trusted: TLC, the git CLI, the Python renderer of model programs to IDL. Known finding C20-deleted-service-base-name is matched by a structured class (only rows whose sole deviation is the base-name attribution of deleted services).")
 
+CHECKS["C11"] = dict(
+   level="model_checking", ref="DESIGN.md section 5 (C11), Lexer.tla, Quote.tla",
+   technique="TLA+ model of the IDL scanner's position / docstring bookkeeping and of the moments the grammar's empty `pos` / `docstring` rules read it (Lexer.tla), checked by TLC over every layout of token skeletons drawn from the full grammar (MCLexer.tla); TLA+ model of literal unquoting against the meaning of escape sequences (Quote.tla, MCQuote.tla); the explored layouts and literals, random full-grammar documents from an independent pretty-printer and raw / token-mutated bytes parsed by the real parser, and the returned tree, positions, docstrings and ast.Walk sequence judged by TLC from each document's script (C11Trace.tla)",
+   text="MCLexer: per skeleton (10 quick / 18 thorough small documents covering every node kind, marker kind and first-token kind) every assignment of 18 layout gaps (blanks, newlines, CRLF, line / block comments with newlines, docstrings of 5 shapes followed by 0-2 newlines or another comment) with <= 2 (3) non-trivial gaps: every recorded position is the start of the node's first token and every docstring is the adjacent one; negative controls: each of the three scanner repairs switched off, and the property without the recorded finding. MCQuote: every literal body <= 4 (5) bytes over 14 bytes forming all escape kinds, both styles: unquote = meaning; negative control = pinned quote.go. A deterministic sample of both models' states plus 400 (6000) random full-grammar documents with random layout, and 1500 (40000) random / token-mutated byte strings, are parsed by idl.Config.Parse and idl.Parse; TLC recomputes from each script the true and the model-predicted position and docstring of every node and compares tree shape, names, literal values, positions, docstrings, the ast.Walk order with parents, and for all inputs: no panic, program xor non-empty errors, errors inside the document, both entry points agree.",
+   note="Trusted: TLC, the pretty-printer's knowledge of the grammar (which marker a node's position comes from), byte-based columns. Three recorded findings are matched by structured classes (position read before the token; equal constants share a position; '/**/' opens a docstring).")
+
 NOT_YET = {}
 
 def main():
